@@ -351,6 +351,33 @@ def deposed_leader_waiters_share_positions(**kw):
     return sc.rec
 
 
+def role_hook_raises_on_step_down(**kw):
+    """the application's onStateChanged hook of the leader raises at the moment the node has to step down for a newer
+    term (the exception leaves the handler, as any exception of an application hook does): the node IS a follower of the
+    new term all the same - one leader per term, the deposed leader counts and commits nothing (seed C07-r7: the new
+    role stored only after the hook returned).  Implementation under the monitors only (the model has no hook)."""
+    sc = Script(base_cfg([1, 2, 3], fallback=100000, state_cb_raises=[1, 2, 3]), **kw)
+    s = sc.s
+    sc.rec.model_ok = False
+    s.boot()
+    sc.elect(1)
+    sc.settle([1, 2, 3], 2)
+    for rnd, (old, new, third) in enumerate([(1, 2, 3), (2, 3, 1), (3, 1, 2)]):
+        s.submit(old, size=5)
+        sc.settle([1, 2, 3], 2)
+        s.drop(new, old)
+        s.drop(old, new)              # `new` misses the heartbeats ...
+        sc.elect_until(new, [third])  # ... is elected by `third`
+        s.connect(new, old)
+        s.connect(old, new)
+        s.tick(new, 11)
+        sc.flush(new, old)            # the old leader hears of the newer term: its hook raises while it steps down
+        sc.flush(old, new)
+        s.submit(old, size=5)         # what is submitted on the deposed leader goes through the new one or nowhere
+        sc.settle([1, 2, 3], 4)
+    return sc.rec
+
+
 def forwarded(**kw):
     """commands submitted on a follower while the leader changes"""
     sc = Script(base_cfg([1, 2, 3]), **kw)
@@ -1342,6 +1369,48 @@ def observer_of_snapshot_installed_voter(**kw):
     return sc.rec
 
 
+def observers_join_after_snapshot_install(**kw):
+    """dynamic membership; a voter is brought up to date by a snapshot (which replaces its member set) while NO read-only
+    node is attached to it; two observers attach afterwards; the voter becomes leader with the votes of both other
+    voters, which then go away: with one voter of three left it commits nothing, answers nothing and steps down - the
+    observers' acknowledgements never count (seed C18-r7: after the install the set of replication targets and the
+    set of voters are one object, so observers that connect later become voters of that node)"""
+    RO1, RO2 = RO_BASE + 1, RO_BASE + 2
+    sc = Script(base_cfg([1, 2, 3], dyn=True, chunk=64, fallback=300), **kw)
+    s = sc.s
+    s.boot()
+    sc.elect(1)
+    sc.settle([1, 2, 3], 3)
+    for x in (1, 2):                  # 3 stalls
+        s.drop(3, x)
+        s.drop(x, 3)
+    for _ in range(6):
+        s.submit(1, size=10)
+    sc.settle([1, 2], 4)
+    sc.rec.do(('compact', 1))
+    sc.settle([1, 2], 3)
+    for x in (1, 2):
+        s.connect(3, x)
+        s.connect(x, 3)
+    sc.settle([1, 2, 3], 8)           # 3 is caught up by snapshot, nobody else attached
+    for RO in (RO1, RO2):
+        s.clock.setdefault(RO, 0)
+        s.clock[RO] += 1
+        sc.rec.do(('restart', RO, [1, 2, 3], s.clock[RO], s.rnd()))
+        s.alive.add(RO)
+        s.connect(RO, 3)
+        s.connect(3, RO)
+    sc.settle([1, 2, 3, RO1, RO2], 3)
+    sc.isolate(1)                     # the old leader goes away
+    sc.elect_until(3, [2])
+    sc.settle([2, 3, RO1, RO2], 3)
+    sc.isolate(2)                     # ... and so does the other voter: 3 is alone with its observers
+    for _ in range(3):
+        s.submit(3, size=10, cb=True)
+    sc.settle([3, RO1, RO2], 40)
+    return sc.rec
+
+
 def readded_address_partial_replay(**kw):
     """KF-C10-1 (found by the membership proof worker, AbstractM/Examples.v run D): addresses that were members before come
     back as fresh, empty processes - which the operator discipline of C10 allows.  A joiner is started with the CURRENT
@@ -1854,7 +1923,7 @@ def big_entry_index_reused(**kw):
 
 
 SCENARIOS = {'d7': d7, 'd8': d8, 'd17': d17, 'd16': d16, 'd1': d1, 'd20': d20,
-             'snapshot_catchup': snapshot_catchup, 'deposed_leader_waiters_share_positions': deposed_leader_waiters_share_positions, 'snapshot_installed_follower_leads': snapshot_installed_follower_leads, 'snapshot_sent_long_after_it_was_taken': snapshot_sent_long_after_it_was_taken, 'forwarded': forwarded,
+             'snapshot_catchup': snapshot_catchup, 'role_hook_raises_on_step_down': role_hook_raises_on_step_down, 'deposed_leader_waiters_share_positions': deposed_leader_waiters_share_positions, 'snapshot_installed_follower_leads': snapshot_installed_follower_leads, 'snapshot_sent_long_after_it_was_taken': snapshot_sent_long_after_it_was_taken, 'forwarded': forwarded,
              'restart_double_vote': restart_double_vote, 'd18': d18, 'd10': d10, 'd19': d19, 'd6': d6,
              'ser_fork': ser_fork, 'ser_custom': ser_custom, 'fig8': fig8, 'stale_match_reelected': stale_match_reelected,
              'stale_cursor': stale_cursor, 'compact_during_install': compact_during_install,
@@ -1868,6 +1937,7 @@ SCENARIOS = {'d7': d7, 'd8': d8, 'd17': d17, 'd16': d16, 'd1': d1, 'd20': d20,
              'compacted_stale_leader_backoff': compacted_stale_leader_backoff,
              'raising_replay_after_restart': raising_replay_after_restart,
              'observer_of_snapshot_installed_voter': observer_of_snapshot_installed_voter,
+             'observers_join_after_snapshot_install': observers_join_after_snapshot_install,
              'readded_address_partial_replay': readded_address_partial_replay,
              'joiner_list_read_during_pending_change': joiner_list_read_during_pending_change,
              'joiner_snapshot_lists_itself': joiner_snapshot_lists_itself,
